@@ -283,9 +283,8 @@ def run(ctx):
                     "membership) and compared on whole subnets; math/big = Z; math/rand draws universally quantified",
                     "pkg/scan/verif_export.go, command/verif_export_c01.go (build tag verif)"]
     ctx.assumptions += ["the target argument reaches the generators only through ip.ParseIPNet (parseDstSubnet, arp RunE)"]
-    gen_ok = ctx.gen()
-    model_ok = gen_ok and ctx.coq_model(["Spec/C02.vo"])
-    proof_ok = gen_ok and ctx.coq_proofs("Properties/C02.v")
+    from checks import tgtlib
+    gen_ok, model_ok, proof_ok = tgtlib.gen_and_prove(ctx, "Spec/C02.vo", "Properties/C02.v")
     rows = []
     if ctx.harness_build("c02"):
         args = ["-out", "cases.jsonl", "-seed", ctx.seed]
